@@ -217,10 +217,18 @@ func initExterns() {
 					tr.havocAll(st)
 					return unit(resT)
 				}
+				// one rearrangement function for all components of the element type: the result is a permutation of the input
+				tr.n++
+				pf := fmt.Sprintf("sortperm!%d", tr.n)
+				tr.emit("(declare-fun " + pf + " (Int) Int)")
+				in := func(x string) string {
+					return fmt.Sprintf("(and (< %s 0) (= (elemB %s) %s) (<= %s (elemI %s)) (< (elemI %s) (+ %s %s)))", x, x, v.A[0], v.A[1], x, x, v.A[1], v.A[2])
+				}
 				for _, cc := range tr.W.cellComps(sl.Elem()) {
 					old := tr.cur(st, cc)
 					nw := tr.havocComp(st, cc)
-					tr.assumeRaw(fmt.Sprintf("(forall ((a Int)) (! (=> (not (and (< a 0) (= (elemB a) %s) (<= %s (elemI a)) (< (elemI a) (+ %s %s)))) (= (select %s a) (select %s a))) :pattern ((select %s a))))", v.A[0], v.A[1], v.A[1], v.A[2], nw, old, nw))
+					tr.assumeRaw(fmt.Sprintf("(forall ((a Int)) (! (ite %s (and %s (= (select %s a) (select %s (%s a)))) (= (select %s a) (select %s a))) :pattern ((select %s a))))",
+						in("a"), in("("+pf+" a)"), nw, old, pf, nw, old, nw))
 				}
 				return unit(resT)
 			}}
@@ -335,8 +343,10 @@ func initExterns() {
 			f := sel(tr.cur(st, compEncFile), args[0].one())
 			p := sel(tr.cur(st, compFilePath), f)
 			data := "0"
-			if d := unboxArg(tr, instr, 1); d != nil && len(d.A) == 1 {
-				data = d.A[0]
+			if d := unboxArg(tr, instr, 1); d != nil && len(d.A) == 1 && d.T != nil {
+				if _, isPtr := d.T.Underlying().(*types.Pointer); isPtr {
+					data = d.A[0]
+				}
 			}
 			fsS := tr.cur(st, compFsState)
 			fsD := tr.cur(st, compFsData)
@@ -371,7 +381,7 @@ func initExterns() {
 				tr.set(st, compDecoded, ite(and(ok, eq(sel(tr.cur(st, compFsState), p), "2")), store(dd, d.A[0], sel(tr.cur(st, compFsData), p)), dd))
 			} else {
 				tr.note("Decode into a non-first-class pointer: everything havocked")
-				tr.havocAll(st)
+				tr.havocAllKeepHeld(st, nil)
 			}
 			return err
 		}}
